@@ -861,6 +861,11 @@ func c11TargetedStore(r *ev.Run) {
 	r.Cases("targeted", total, func(i int, rng *rand.Rand) {
 		runOneSchedule(r, ctl, own, i, rng, points[(i/len(actions))%len(points)], actions[i%len(actions)])
 	})
+	// sampled depth-2 schedules (three store operations in flight, two of them held between critical sections), here
+	// under the race detector; same sampler and oracle as C08's stream of that name
+	ctl.uninstall()
+	runDepth2Schedules(r, r.Pick(24, 240), false)
+	ctl.install()
 	// (i) A picks the writable memtable and is held; B fills it, forcing a rotation AND a complete flush; A resumes:
 	// A's Add must succeed, be visible now, after the flush, and after a restart.
 	r.Cases("targeted-add-vs-rotation-and-flush", r.Pick(6, 60), func(ci int, rng *rand.Rand) {
